@@ -35,7 +35,7 @@ REGISTRATION = {
             "loop), not executed; the cache-length arithmetic next to TruncateStop belongs to C07.",
 }
 
-PROP_MODULES = ["OllamaVerif.Properties.C14"]
+PROP_MODULES = ["OllamaVerif.Properties.C14", "OllamaVerif.Tie.C14Variant"]
 TIE_MODULES = ["OllamaVerif.Tie.C14"]
 MODULES = PROP_MODULES + TIE_MODULES
 TIE_THEOREMS = [
@@ -75,12 +75,14 @@ THEOREMS = [
     "OllamaVerif.Stop.run_append",
     "OllamaVerif.Stop.runN_eq_run",
     "OllamaVerif.Stop.client_view",
+    "OllamaVerif.C14.c14_script",
+    "OllamaVerif.Tie.C14.tree_findstop_repaired",
+    "OllamaVerif.Tie.C14.c14_tree",
 ]
-# Model variant the oracle is asked to run: 1 = FindStop as pinned in /repo (first listed stop, finding F7),
-# 0 = the repaired FindStop of proposed_fixes/C14-F7.patch.  ONE EDIT when the fix is applied to /repo: set to 0
-# (and mark F7 "fixed" in KNOWN_FINDINGS.jsonl).  The environment override exists only to try the patch in a
-# scratch worktree: VERIF_REPO=/tmp/wt VERIF_C14_PINNED=0 ./check C14 quick
-PINNED_FINDSTOP = int(os.environ.get("VERIF_C14_PINNED", "0"))  # F7 fixed in /repo (6e9857ebf)
+# Model variant the oracle is asked to run: 1 = first listed stop (finding F7, fixed in /repo 6e9857ebf), 0 = earliest
+# occurrence.  NOT a constant any more: decided on every run by executing the real FindStop (regenerate_variant), and
+# the same answers are checked in Lean (Tie.C14.tree_findstop_repaired), from which the tree-level theorem is derived.
+PINNED_FINDSTOP = 0
 
 OV_COMMON = {
     "runner/common/zz_verif_c14_test.go": "runner_common/zz_verif_c14_test.go",
@@ -130,7 +132,47 @@ def regenerate(ctx):
     return diff
 
 
+def lean_bytes(h):
+    b = bytes.fromhex("" if h == "-" else h)
+    return "[" + ", ".join("0x%02x" % x for x in b) + "]"
+
+
+def regenerate_variant(ctx):
+    """Tie 1: which FindStop the tree has.  The real common.FindStop/TruncateStop are executed on the inputs that tell
+    the model's two variants apart; the answers become Generated/C14_Variant.lean, Tie/C14Variant.lean decides by
+    `decide` which variant agrees with them (tree_findstop_repaired) and derives the tree-level theorem c14_tree.
+    Returns the variant flag the oracle is asked to run (1 = first listed stop, 0 = earliest occurrence)."""
+    rc, out, outdir = ctx.go_test("./runner/common/", OV_COMMON, "^TestVerifC14Variant$")
+    rows = []
+    p = os.path.join(outdir, "variant.txt")
+    if rc == 0 and os.path.exists(p):
+        for line in open(p):
+            seq, stops, res, kept = line.rstrip("\n").split("\t")
+            stops = [x for x in stops.split(",") if x]
+            r = "none" if res == "none" else "some " + lean_bytes(res.split()[1])
+            rows.append((seq, stops, res, f"({lean_bytes(seq)}, [{', '.join(lean_bytes(x) for x in stops)}], {r}, "
+                                           f"{lean_bytes(kept)})"))
+    body = ("-- REGENERATED on every run by vlib/checks/c14.py: the real common.FindStop / TruncateStop of /repo's working\n"
+            "-- tree EXECUTED on the inputs that tell the model's variants apart (TestVerifC14Variant). Do not edit.\n"
+            "namespace OllamaVerif.Generated.C14\n"
+            "/-- (sequence, stops, what FindStop returned, text TruncateStop([sequence], stop) kept) -/\n"
+            "def findStopProbe : List (List UInt8 × List (List UInt8) × Option (List UInt8) × List UInt8) := [\n  "
+            + ",\n  ".join(r[3] for r in rows) + "]\n"
+            "end OllamaVerif.Generated.C14\n")
+    core.write_generated("OllamaVerif/Generated/C14_Variant.lean", body)
+    ctx.coverage["findstop_probe_rows"] = len(rows)
+    # the F7 witness row decides what the oracle is asked to run: first listed ("\n\n") or earliest ("}")
+    pinned = 0
+    for seq, stops, res, _ in rows:
+        if seq == "7d0a0a" and stops == ["0a0a", "7d"]:
+            pinned = 1 if res == "some 0a0a" else 0
+    ctx.coverage["findstop_variant_of_tree"] = "first-listed (pinned, F7)" if pinned else "earliest (repaired)"
+    return pinned
+
+
 def run(ctx):
+    global PINNED_FINDSTOP
+    PINNED_FINDSTOP = regenerate_variant(ctx)
     skel_diff = regenerate(ctx)
     # The skeleton tie is built on its own so that a change of either runner's output statements is reported as
     # exactly that (with the changed statements), and the property theorems are still checked.
